@@ -124,7 +124,8 @@ func (e *executor[R]) getFixedOrRandomDelay(exec failsafe.ExecutionAttempt[R]) t
 	if e.Delay != 0 {
 		// Adjust for backoffs
 		if e.lastDelay != 0 && exec.Retries() >= 1 && e.maxDelay != 0 {
-			backoffDelay := time.Duration(float32(e.lastDelay) * e.delayFactor)
+			// float64 represents every delay up to 2^53ns exactly, so a factor >= 1 can never shrink the delay
+			backoffDelay := time.Duration(float64(e.lastDelay) * float64(e.delayFactor))
 			e.lastDelay = min(backoffDelay, e.maxDelay)
 		} else {
 			e.lastDelay = e.Delay
